@@ -12,6 +12,7 @@ any combination of verdicts, any CertificateVerify, any message order the `Behav
 can express) and over both stacks' tables.
 -/
 import Gotlcp.Model.ServerAuthnFacts
+import Gotlcp.Tie.Padding
 
 set_option linter.unusedSimpArgs false
 set_option linter.unusedVariables false
@@ -562,5 +563,31 @@ example : ∀ p ∈ [Policy.requestClientCert, .requireAnyClientCert, .verifyCli
 example : resume (docTables true true true .clientOrServer) .requireAndVerifyClientCert
     { cacheHit := true, mechOK := true, ecdhe := false, recorded := [⟨true, true, true, true⟩], finishedOK := true }
     = .resumedDone 1 true := by decide
+
+/-! ### `requiresClientCert` of the TRANSLATED source (`Gotlcp.Src.tlcp`, regenerated from common.go) -/
+
+/-- The statement-by-statement translation of `requiresClientCert(c ClientAuthType) bool`, as a
+function of the `int` code of the policy (`t.ord p`, the iota value), returns for each of the six
+documented policies what the regenerated table of the model says (`t.requiresClientCert`), which is
+what the documentation says (`Policy.requiresCert`: RequireAnyClientCert, RequireAndVerifyClientCert,
+RequireAndVerifyAnyKeyUsageClientCert), and `false` for every other integer. -/
+theorem C07_src_requiresClientCert (t : Tables) (ht : tlcpTables = some t) :
+    (∀ p : Policy, Src.tlcp.requiresClientCert (t.ord p : Int) = t.requiresClientCert p ∧
+                   Src.tlcp.requiresClientCert (t.ord p : Int) = p.requiresCert) ∧
+    (∀ c : Int, (∀ p : Policy, c ≠ (t.ord p : Int)) → Src.tlcp.requiresClientCert c = false) := by
+  obtain ⟨h1, h2⟩ := Tie.Padding.tie_requiresClientCert t ht
+  refine ⟨fun p => ⟨h1 p, ?_⟩, h2⟩
+  rw [h1 p, stack_tables (Or.inl ht), requires_eq]
+
+/-- the codes are the iota values 0…5, so "every other integer" is every `c < 0` and every `c ≥ 6` -/
+theorem C07_src_requiresClientCert_range (c : Int) (h : c < 0 ∨ 6 ≤ c) :
+    Src.tlcp.requiresClientCert c = false := by
+  cases hc : Src.tlcp.requiresClientCert c with
+  | false => rfl
+  | true => have := (Tie.Padding.tie_requiresClientCert_iff c).mp hc; omega
+
+example : Facts.tlcp.saPolicyValues = [0, 1, 2, 3, 4, 5] ∧
+    (List.range 8).map (fun (c : Nat) => Src.tlcp.requiresClientCert (c : Int)) =
+      [false, false, true, false, true, true, false, false] := by decide
 
 end Gotlcp.Props.C07
